@@ -4,7 +4,7 @@ Lin: linear expression  sum c_i * sym_i + c0  with Fraction coefficients, built
 from ast expressions (non-affine sub-expressions become opaque symbols keyed by
 their normalised source, so ``kv.shape[0]`` or ``len(x)`` are just symbols).
 
-prove(facts, goal): integer-aware Fourier-Motzkin refutation of  facts /\ not goal.
+prove(facts, goal): integer-aware Fourier-Motzkin refutation of  facts and not goal.
 """
 import ast
 from fractions import Fraction
